@@ -302,7 +302,18 @@ func TraceCheck(solverBin string, logPath string, initPaths []string, base, user
 				tmpID = ev.Ino
 			}
 		}
-		in.crashAnalyse(events, baseID, init, tmpID, preexisting, user, op, durable)
+		func() {
+			// a violated obligation that is false outright ends the "path" (pathEnd): on a real
+			// trace that is simply the end of the analysis
+			defer func() {
+				if r := recover(); r != nil {
+					if _, ok := r.(pathEnd); !ok {
+						panic(r)
+					}
+				}
+			}()
+			in.crashAnalyse(events, baseID, init, tmpID, preexisting, user, op, durable)
+		}()
 		for _, v := range in.res.Violations {
 			res.Failed = append(res.Failed, v.AssertID)
 		}
